@@ -379,34 +379,87 @@ def speedup():
         _patched[0] = True
 
 
+def apply_rewrite(kind, text):
+    """the (idempotent) rewriting of record["message"] a scenario's filter / format function / patcher performs"""
+    k = kind[0]
+    if k == "replace":
+        return text.replace(kind[1], kind[2])
+    if k == "const":
+        return kind[1]
+    if k == "same":
+        return str(text)
+    if k == "append_once":
+        return text if text.endswith(kind[1]) else text + kind[1]
+    raise ValueError("rewrite kind %r" % (kind,))
+
+
 def run_scenario(sc):
     """Execute one scenario on the real loguru.  Returns list of step results:
-    ('add-error', kind) or per log step ('ok', colored, plain, record) / ('log-error', kind)"""
+    ('add-error', kind) or per log step ('ok', colored, plain, record) / ('log-error', kind).
+    The compared pair (colorize=True / colorize=False, same format, same filter) may be preceded by an
+    `upstream` handler, and record["message"] may be rewritten by a patcher, by the upstream handler's filter or
+    format function, or by the pair's own filter / format function (sc["rewrite"])."""
     speedup()
     lg = new_logger()
     results = []
     for name, no, color in sc.get("custom_levels", []):
         lg.level(name, no=no, color=color)
-    col, pla = [], []
+    col, pla, up = [], [], []
     fmt = sc["format"]
+    rw = sc.get("rewrite") or {}
+    where, kind = rw.get("where"), rw.get("kind")
+
+    def rewriting(record):
+        record["message"] = apply_rewrite(kind, record["message"])
+
+    def rw_filter(record):
+        rewriting(record)
+        return True
+
     if sc["dynamic"]:
-        f1 = (lambda record, _f=fmt: _f)
-        f2 = (lambda record, _f=fmt: _f)
+        if where == "pair_format":
+            def f1(record, _f=fmt):
+                rewriting(record)
+                return _f
+            f2 = f1
+        else:
+            f1 = (lambda record, _f=fmt: _f)
+            f2 = (lambda record, _f=fmt: _f)
     else:
         f1 = f2 = fmt
+    pair_kw = {"filter": rw_filter} if where == "pair_filter" else {}
+    ups = sc.get("upstream")
     try:
-        lg.add(lambda m: col.append(m), format=f1, colorize=True, catch=False, level=0)
-        lg.add(lambda m: pla.append(m), format=f2, colorize=False, catch=False, level=0)
+        if ups:
+            ukw = {}
+            if where == "upstream_filter":
+                ukw["filter"] = rw_filter
+            if where == "upstream_format":
+                def uf(record, _f=ups["format"]):
+                    rewriting(record)
+                    return _f
+                ukw["format"] = uf
+            elif ups.get("dynamic"):
+                ukw["format"] = (lambda record, _f=ups["format"]: _f)
+            else:
+                ukw["format"] = ups["format"]
+            lg.add(lambda m: up.append(m), colorize=ups.get("colorize", False), catch=False, level=0, **ukw)
+        pair = [(lambda m: col.append(m), f1, True), (lambda m: pla.append(m), f2, False)]
+        if sc.get("order") == "plain_first":
+            pair.reverse()
+        for sink, f, colorize in pair:
+            lg.add(sink, format=f, colorize=colorize, catch=False, level=0, **pair_kw)
     except ValueError as e:
         lg.remove()
         return [("add-error", "ValueError")]
+    logger_ = lg.patch(rewriting) if where == "patcher" else lg
     try:
         for st in sc["steps"]:
             if st["op"] == "recolor":
                 lg.level(st["level"], color=st["color"])
                 continue
             del col[:], pla[:]
-            o = lg.opt(colors=True, raw=st.get("raw", False))
+            o = logger_.opt(colors=True, raw=st.get("raw", False))
             if "extra" in sc:
                 o = o.bind(**sc["extra"])
             try:
@@ -450,8 +503,31 @@ def gen_scenario(rng, stats):
     fmt, nest, esc = gen_markup(rng, 0, leaf, stats, malformed=malformed_fmt)
     if nmsg[0] == 0 and rng.chance(80):
         fmt += "{message}" if not f10 else rng.choice(F10_FIELDS)
+    # level-history mode: one focus level is logged several times across re-colourings, and the format
+    # (static or dynamic) shows the level's colour
+    focus_mode = rng.chance(35)
+    if focus_mode and not malformed_fmt:
+        k = rng.below(4)
+        if k == 0:
+            fmt = "<level>{level.name}</level> " + fmt
+        elif k == 1:
+            fmt = "<lvl>" + fmt + "</lvl>"
+        elif k == 2:
+            fmt = fmt + "<b><level>|</level>{level.no}</b>"
     sc["format"] = fmt
-    sc["dynamic"] = rng.chance(25)
+    sc["dynamic"] = rng.chance(50 if focus_mode else 25)
+    sc["order"] = "plain_first" if rng.chance(40) else "color_first"
+    # who rewrites record["message"] between the call and the compared handlers, if anybody
+    if rng.chance(30):
+        wheres = ["patcher", "upstream_filter", "upstream_format", "pair_filter"] + (["pair_format"] if sc["dynamic"] else [])
+        kind = rng.choice([["replace", "a", "#"], ["replace", "x", ""], ["const", "new <red>text</red> {x}"], ["same"],
+                           ["append_once", "!"], ["replace", " ", "_"], ["const", ""], ["same"]])
+        sc["rewrite"] = {"where": rng.choice(wheres), "kind": kind}
+        stats("scenario:rewrite=" + sc["rewrite"]["where"])
+    if (sc.get("rewrite") or {}).get("where", "").startswith("upstream") or rng.chance(12):
+        sc["upstream"] = {"colorize": rng.chance(50), "dynamic": rng.chance(30),
+                          "format": rng.choice(["{message}", "<red>{message}</red>\n", "{level} <lvl>{message}</lvl>", "x"])}
+        stats("scenario:upstream-handler")
     sc["extra"] = {"k": rng.choice(VALUES), "m": rng.choice(VALUES), "w": rng.choice([">7", "", "<3", "^9"])}
     sc["custom_levels"] = []
     levels = ["INFO", "WARNING", "DEBUG", "ERROR", 25, 5]
@@ -459,8 +535,12 @@ def gen_scenario(rng, stats):
         sc["custom_levels"].append(("FOO", rng.range(1, 60), rng.choice(LEVEL_COLORS)))
         levels = ["FOO"] + levels
     steps = []
-    for _ in range(rng.range(1, 3)):
-        if rng.chance(25):
+    focus = rng.choice([l for l in levels if isinstance(l, str)])
+    for _ in range(rng.range(3, 6) if focus_mode else rng.range(1, 3)):
+        if focus_mode:
+            if steps and rng.chance(45):
+                steps.append({"op": "recolor", "level": focus, "color": rng.choice(LEVEL_COLORS)})
+        elif rng.chance(25):
             steps.append({"op": "recolor", "level": rng.choice([l for l in levels if isinstance(l, str)]),
                           "color": rng.choice(LEVEL_COLORS)})
         malformed_msg = rng.chance(7)
@@ -475,7 +555,8 @@ def gen_scenario(rng, stats):
             def mleaf(r):
                 return gen_text(r) if not r.chance(10) else r.choice(["{", "}", "{x}", "{}"])
         msg, n2, e2 = gen_markup(rng, 0, mleaf, stats, malformed=malformed_msg)
-        st = {"op": "log", "level": rng.choice(levels), "message": msg, "raw": rng.chance(12)}
+        st = {"op": "log", "level": focus if (focus_mode and rng.chance(80)) else rng.choice(levels), "message": msg,
+              "raw": rng.chance(12)}
         if with_args:
             nauto = len(re.findall(r"(?<!\{)\{\}", msg.replace("{{", "")))
             st["args"] = [rng.choice(VALUES) for _ in range(nauto)]
@@ -581,6 +662,21 @@ def judge_scenario(ctx, sc, results, origin):
                 viol("logging call accepted the message %r whose markup is unknown/unbalanced/mis-nested: %r"
                      % (msg, res[:3]), {"step": ri - 1})
             continue
+        rw = sc.get("rewrite")
+        rewritten = False
+        if rw and not (rw["where"] == "pair_format" and not sc["dynamic"]):
+            leaves = []
+            flatten(msg_nodes, (), lambda nd, stack: leaves.append(nd[1]))
+            visible = "".join(leaves)
+            final = apply_rewrite(rw["kind"], visible)
+            if final != visible:
+                # record["message"] no longer is the coloured message: it is a record value, printed as it is,
+                # styled by the format's tags only
+                msg_nodes = [("text", final)]
+                rewritten = True
+                ctx.stat("scenario:message-rewritten")
+            else:
+                ctx.stat("scenario:message-rewrite-noop")
         if not fmt_ok and not st.get("raw"):    # dynamic format with bad markup: surfaces at the call
             if res[0] != "log-error":
                 viol("dynamic format %r with bad markup did not raise" % fmt, {"step": ri - 1})
@@ -608,7 +704,8 @@ def judge_scenario(ctx, sc, results, origin):
         key = F10_KEY if f10 else None
         if ANSI_RE.sub("", colored) != plain:
             viol("visible text differs: colorize=True prints %r (ANSI removed: %r), colorize=False prints %r; "
-                 "format %r, message %r" % (colored, ANSI_RE.sub("", colored), plain, fmt, msg),
+                 "format %r, message %r%s" % (colored, ANSI_RE.sub("", colored), plain, fmt, msg,
+                                              (", record['message'] rewritten by %s" % rw["where"]) if rewritten else ""),
                  {"step": ri - 1, "expected": plain, "observed": ANSI_RE.sub("", colored)}, key=key)
             continue
         try:
@@ -673,6 +770,8 @@ def enc_list(xs):
 def pair_lines(sc, results):
     """driver lines `pair …` for the log steps of a scenario the handler-level model covers, with what the
     implementation did: [(line, impl_string, step_index)]"""
+    if sc.get("rewrite"):
+        return []         # the handler-level model has no rewriting of the record between handlers
     fmt = sc["format"] if sc["dynamic"] else sc["format"] + "\n{exception}"
     try:
         chunks = list(string.Formatter().parse(fmt))
